@@ -42,18 +42,18 @@ func (o c12Op) String() string {
 }
 
 type c12Exp struct {
-	tsDemand  bool
-	ts        time.Time // expected Timestamp (zero => invalid base time)
-	hasLocal  bool
-	local     time.Time
-	id        uint16
-	altLocal  time.Time // prediction of the known-defect model (local time becoming the reference)
-	altTs     time.Time
+	tsDemand bool
+	ts       time.Time // expected Timestamp (zero => invalid base time)
+	hasLocal bool
+	local    time.Time
+	id       uint16
+	altLocal time.Time // prediction of the known-defect model (local time becoming the reference)
+	altTs    time.Time
 }
 
 type c12Model struct {
-	has  bool
-	ref  uint32
+	has bool
+	ref uint32
 	// defect model K6: a local timestamp seen without (UTC) reference becomes the reference
 	khas  bool
 	kref  uint32
